@@ -1745,6 +1745,9 @@ class HDKey(Key):
         if not prefix_data:
             raise BKeyError("Invalid BIP32 HDkey WIF. Cannot find prefix in network definitions")
 
+        if is_private not in [n['is_private'] for n in prefix_data] or (not is_private and bkey[45:46] not in [b'\2', b'\3']):
+            raise BKeyError("Invalid BIP32 HDkey WIF. Key data does not match the private / public version bytes")
+
         networks = list(dict.fromkeys([n['network'] for n in prefix_data]))
         if not network and networks:
             network = networks[0]
@@ -1844,6 +1847,10 @@ class HDKey(Key):
                     if len(bkey) != 82 or double_sha256(bkey[:-4])[:4] != bkey[-4:]:
                         raise BKeyError("Invalid BIP32 HDkey WIF. Length or checksum incorrect")
                     # Derive key, chain, depth, child_index and fingerprint part from extended key WIF
+                    if kf['format'] == 'hdkey_private' and bkey[45:46] != b'\0' or \
+                            kf['format'] == 'hdkey_public' and bkey[45:46] not in [b'\2', b'\3']:
+                        raise BKeyError("Invalid BIP32 HDkey WIF. Key data does not match the private / public version "
+                                        "bytes")
                     if ord(bkey[45:46]):
                         is_private = False
                         key = bkey[45:78]
